@@ -73,6 +73,9 @@ Free == /\ Script = <<>> /\ Len(hist) < MaxOps
            \/ DoObserve("ext", "", <<Sym("s", nsym), Sym("s", nsym + 1)>>) /\ nsym' = nsym + 2
            \/ DoObserve("hash", "", [j \in 1..4 |-> Sym("s", nsym + j - 1)]) /\ nsym' = nsym + 4
            \/ DoObserve("bnhash", Sym("h", nsym), Chunks(Sym("h", nsym))) /\ nsym' = nsym + 1
+           \* a list observation (ObserveElements / ObserveCap / ObserveExtensionElements); the EMPTY list observes nothing and, as in
+           \* plonky2 (only observe_element clears the outputs), leaves the pending outputs alone
+           \/ \E n \in {0, 3} : DoObserve("elements", "", [j \in 1..n |-> Sym("s", nsym + j - 1)]) /\ nsym' = nsym + n
            \/ \E k \in 1..3 : DoSqueeze("challenges", "", k) /\ nsym' = nsym
            \/ DoSqueeze("extchallenge", "", 2) /\ nsym' = nsym
            \/ DoSqueeze("gethash", "", 4) /\ nsym' = nsym
